@@ -81,10 +81,60 @@ def generate(ctx):
             pre = r.choice([b'', b'\x00', gen.enc(w)])
             bid = ctx.add('path_batch%s %s %s %s' % ('@' + pre.hex() if pre else '', e, fn, ' '.join(texts))).id
             ctx.batches.append((fn, texts, pre, singles, bid))
+    lazy_stream(ctx, ds)
+
+
+def lazy_stream(ctx, ds):
+    """LazyValue::write_to_vec (lazy_value.rs; model coq/ValueApi.v lazy_write_to_vec) for both variants -- Value(v) built through
+    From<Value>, Raw(enc v) -- with the empty buffer and with a prefix; the same case line also carries to_vec, array_length and
+    to_value of the LazyValue (fields 1-3, diffed against the model).  Raw on buffers that are not encodings (prefixes, one byte
+    changed): to_value unwraps from_slice and panics, write_to_vec copies the bytes whatever they are (tie only)."""
+    r = ctx.rng
+    ctx.lazy_trials = []
+    for v in ds:
+        if gen.nodes(v) > 700:
+            continue
+        w = r.choice(ds[:80])
+        pre = r.choice([b'\x00', gen.enc(w), b'\xff\x80\x40\x20'])
+        for op, arg in (('lazy_value', gen.vtext(v)), ('lazy_raw', gen.hexarg(gen.enc(v)))):
+            base = ctx.add('%s %s' % (op, arg)).id
+            pid = ctx.add('%s@%s %s' % (op, pre.hex(), arg)).id
+            ctx.lazy_trials.append((op, v, pre, base, pid))
+    small = [v for v in ds if len(gen.enc(v)) <= 60]
+    for v in r.sample(small, min(len(small), ctx.scale(40, 1500))):
+        e = gen.enc(v)
+        muts = [e[:i] for i in range(1, len(e))] if len(e) <= 24 else [e[:r.randrange(1, len(e))] for _ in range(8)]
+        for _ in range(8):
+            i = r.randrange(len(e))
+            muts.append(e[:i] + bytes([r.choice([0, 1, 0x10, 0x20, 0x40, 0x50, 0x60, 0x7f, e[i] ^ 1, (e[i] + 1) & 0xff])]) + e[i + 1:])
+        muts += [b'[1, 2]', b'{"a":[]}', b'nope', b' 7']       # Raw may hold anything, also JSON text (from_slice falls back to the text parser)
+        for m in muts:
+            if all(not ((b & 0xE0) in (0x80, 0x40) and (b & 0x1F)) for b in m):      # see C19.alloc_safe
+                ctx.add('lazy_raw@00 %s' % gen.hexarg(m), kind='malformed')
+
+
+def judge_lazy(ctx):
+    impl = ctx.impl
+    for op, v, pre, base, pid in getattr(ctx, 'lazy_trials', []):
+        b, p = impl.get(base, 'missing'), impl.get(pid, 'missing')
+        if not b.startswith('ok ') or not p.startswith('ok '):
+            continue          # a panic / death is reported by the generic rule of check.py (valid documents)
+        fb, fp = b[3:].split('|'), p[3:].split('|')
+        if len(fb) != 4 or len(fp) != 4:
+            ctx.violate('LazyValue case: malformed outcome line', case=op, observed=[b[:200], p[:200]])
+            continue
+        if gen.unhexarg(fp[3]) != pre + gen.unhexarg(fb[3]):
+            ctx.violate('LazyValue::write_to_vec: the prefixed call is not prefix ++ what is written into an empty buffer',
+                        case='%s %s' % (op, gen.vtext(v)[:200]), prefix=pre.hex()[:64], observed=[b[:300], p[:300]])
+        if fb[3] != fb[0] or fb[:3] != fp[:3]:
+            ctx.violate('LazyValue: write_to_vec into an empty buffer differs from to_vec, or the buffer content changes an answer',
+                        case='%s %s' % (op, gen.vtext(v)[:200]), observed=[b[:300], p[:300]])
+        ctx.count('lazy_write_to_vec_trials', op)
 
 
 def judge(ctx):
     impl = ctx.impl
+    judge_lazy(ctx)
     for fn, texts, pre, singles, bid in ctx.batches:
         outs = [impl.get(i, 'missing') for i in singles]
         b = impl.get(bid, 'missing')
